@@ -13,7 +13,7 @@ from ..model import glob_match
 from ..resp import Err, Closed, Timeout
 from ..util import Result
 
-MOVES = ["none", "add-after", "add-before", "add-burst", "delete-after", "delete-before", "delete-random", "mixed"]
+MOVES = ["none", "add-after", "add-before", "add-burst", "delete-after", "delete-before", "delete-random", "other-iteration", "mixed"]
 COUNTS = [None, 1, 2, 3, 7, 10, 100, 1000, 1001, 9223372036854775807]
 PATTERNS = [None, None, b"*", b"k*", b"*1*", b"k?[0-9]*", b"s:*", b"v:[a-m]*", b"nomatch*", b"\\k*", b"k\xff*"]
 
@@ -107,6 +107,21 @@ class Scan:
         cmds = []
         if move == "mixed":
             move = rng.choice(MOVES[1:-1])
+        if move == "other-iteration":
+            # no writes at all: another client walks the same key space / container with its own cursor and its own
+            # options (a different TYPE, MATCH, COUNT) in between - iterations must not share any state
+            cur = getattr(self, "adv_cur", b"0")
+            if cur == b"0":
+                self.adv_opts = []
+                if self.kind == "SCAN" and rng.random() < 0.8:
+                    self.adv_opts += [b"TYPE", rng.choice([b"string", b"list", b"set", b"hash", b"zset"])]
+                if rng.random() < 0.4:
+                    self.adv_opts += [b"MATCH", rng.choice([b"*", b"k*", b"s:*", b"nomatch*"])]
+                self.adv_opts += [b"COUNT", rng.choice([b"1", b"3", b"10", b"50"])]
+            head = [b"SCAN"] if self.kind == "SCAN" else [self.kind.encode(), self.container]
+            r = self.adv.cmd(*(head + [cur] + self.adv_opts))
+            self.adv_cur = r[0] if isinstance(r, list) and len(r) == 2 else b"0"
+            return 1
         if move in ("add-after", "add-before", "add-burst"):
             k = rng.randrange(1, 4) if move != "add-burst" else min(burst + rng.randrange(1, 5), 1500)
             new = neighbours(rng, last, move == "add-before", k, self.prefix) if move != "add-burst" else \
